@@ -186,44 +186,17 @@ def token_regions(cssutils, text, tk=None, encoding='utf-8', ident_form='either'
     depth = base_depth   # 1 for a text that is placed inside a block by a DOM edit
     at = None      # the at-rule whose prelude we are in
     raws = raw_texts(text, toks[:-1] if toks and toks[-1][0] == 'EOF' else toks)
-    prev = None            # previous token that is not white space
     unknown_at = None      # depth at which the unknown at-rule we are in started
-    page = None            # state inside an @page selector: 'start' -> 'named' -> 'named-comment'
     for k, (typ, val, _l, _c) in enumerate(toks):
         raw = raws[k] if raws is not None and k < len(raws) else None
-        if typ != 'S':
-            if (prev == ('CHAR', '/') and typ in ('CHAR', 'SUBSTRINGMATCH') and val.startswith('*')) or \
-                    (prev is not None and prev[0] == 'CHAR' and prev[1] in ('*', '~', '|', '^', '$') and (typ, val) == ('CHAR', '=')):
-                # written without the white space between them: `/*` opens a comment, `*=` is one token
-                regs.add('C03-punctuation-fuses')
-            prev = (typ, val)
         if typ == 'ATKEYWORD' and unknown_at is None:
             unknown_at = depth
             if not all(encodable(ch, encoding) for ch in val):
                 # at-keywords are kept as found, the escape written by the escapecss handler is read back as text
                 regs.add('C03-atkeyword-unencodable')
         elif unknown_at is not None:
-            if typ == 'HASH' and len(val) == 7 and all(c in HEX for c in val[1:]) and \
-                    val[1].lower() == val[2].lower() and val[3].lower() == val[4].lower() and val[5].lower() == val[6].lower():
-                # minimizeColorHash shortens it although nothing says it is a colour
-                regs.add('C03-hash-in-unknown-rule')
             if typ == 'CHAR' and ((val == ';' and depth == unknown_at) or (val == '}' and depth - 1 == unknown_at)):
                 unknown_at = None
-        if typ == 'PAGE_SYM':
-            page = 'start'
-        elif page is not None:
-            if typ == 'CHAR' and val in '{;}':
-                page = None
-            elif typ == 'IDENT' and page == 'start':
-                page = 'named'
-            elif typ == 'COMMENT' and page in ('named', 'named-comment'):
-                page = 'named-comment'
-            elif typ == 'CHAR' and val == ':' and page == 'named-comment':
-                # the serializer puts a space behind the comment: `a/*c*/ :first` is rejected
-                regs.add('C03-page-selector-comment')
-            elif typ not in ('COMMENT', 'S'):
-                page = 'other'
-
         if typ == 'CHAR' and val == '{':
             depth += 1
             at = None
